@@ -433,6 +433,19 @@ def refreshAfter (s : State) (k : Kind) (pid : Id) : Except Err Unit :=
       else if p.kind ≠ .blobber then .error .wrongKind else .ok ()
   | _ => .ok ()
 
+/-- balance of an optional delegate pool (`poolStakeBefore` of `validateLockRequest`). -/
+def balanceOf (o : Option DP) : Nat :=
+  match o with
+  | some d => d.balance
+  | none => 0
+
+/-- `LockPool`: a new delegate pool, or the existing one with the value added (`AddCoin`, already checked by
+`validateLockRequest`) and `StakedAt` reset. -/
+def lockedDP (o : Option DP) (v now : Nat) : DP :=
+  match o with
+  | none => { balance := v, reward := 0, stakedAt := now }
+  | some d => { d with balance := d.balance + v, stakedAt := now }
+
 /-- `StakePoolLock` = `validateLockRequest` + `LockPool` + `Save` + `EmitStakeEvent` + refresh. -/
 def lock (cfg : Cfg) (s : State) (k : Kind) (pid : Id) (t : Txn) : Except Err (State × List Ledger.Transfer) :=
   match loadSP s k pid with
@@ -441,10 +454,7 @@ def lock (cfg : Cfg) (s : State) (k : Kind) (pid : Id) (t : Txn) : Except Err (S
     if t.value = 0 then .error .lockZero
     else if t.value < cfg.minStake k then .error .lockSmall
     else
-      let before := match kvGet sp.pools t.client with
-        | some d => d.balance
-        | none => 0
-      match addCoin before t.value with
+      match addCoin (balanceOf (kvGet sp.pools t.client)) t.value with
       | .error e => .error (.coin e)
       | .ok after =>
         if cfg.maxStake k < after then .error .lockLarge
@@ -452,10 +462,7 @@ def lock (cfg : Cfg) (s : State) (k : Kind) (pid : Id) (t : Txn) : Except Err (S
         else if !Ledger.present s.accts t.client then .error .noTokens
         else if (Ledger.get s.accts t.client).balance < t.value then .error .lowBalance
         else
-          let dp' : DP := match kvGet sp.pools t.client with
-            | none => { balance := t.value, reward := 0, stakedAt := t.now }
-            | some d => { d with balance := after, stakedAt := t.now }
-          let sp' := { sp with pools := kvSet sp.pools t.client dp' }
+          let sp' := { sp with pools := kvSet sp.pools t.client (lockedDP (kvGet sp.pools t.client) t.value t.now) }
           match stakeOf (orderedPools s.order sp'.pools) 0 with
           | .error e => .error e
           | .ok _ =>
@@ -463,20 +470,32 @@ def lock (cfg : Cfg) (s : State) (k : Kind) (pid : Id) (t : Txn) : Except Err (S
             | .error e => .error e
             | .ok _ => .ok (putSP s k pid sp', [{ src := t.client, dst := k.sc, amount := t.value }])
 
+/-- the service charge `MintRewards` pays to `client`: the provider's accumulated reward when `client` is the pool's
+delegate wallet (`clientId == sp.Settings.DelegateWallet && sp.Reward > 0`), else nothing. -/
+def chargeOf (sp : SP) (client : Id) : Nat := if sp.wallet = some client ∧ 0 < sp.reward then sp.reward else 0
+
+/-- `MintServiceCharge`: transfer `sp.Reward` from the contract to the delegate wallet, `sp.Reward = 0`. -/
+def payCharge (sp : SP) (k : Kind) (client : Id) : SP × List Ledger.Transfer :=
+  if sp.wallet = some client ∧ 0 < sp.reward then
+    ({ sp with reward := 0 }, [{ src := k.sc, dst := client, amount := sp.reward }])
+  else (sp, [])
+
+/-- the delegate part of `MintRewards`: `if dPool.Reward > 0 { transfer; dPool.Reward = 0 }`. -/
+def payDelegate (sp : SP) (k : Kind) (client : Id) (d : DP) : SP × List Ledger.Transfer :=
+  if 0 < d.reward then
+    ({ sp with pools := kvSet sp.pools client { d with reward := 0 } }, [{ src := k.sc, dst := client, amount := d.reward }])
+  else (sp, [])
+
 /-- `MintRewards(clientId, …)`: service charge to the delegate wallet, then the caller's own pool reward.
-Returns the pool, the queued transfers and `none` when there is nothing for the caller at all. -/
+Returns the pool, the queued transfers and the total; `none` when there is nothing for the caller at all
+(no pool of its own and no service charge: "cannot find rewards"). -/
 def mintRewards (sp : SP) (k : Kind) (client : Id) : Option (SP × List Ledger.Transfer × Nat) :=
-  let hasCharge := decide (sp.wallet = some client) && decide (0 < sp.reward)
-  let charge := if hasCharge then sp.reward else 0
-  let sp1 := if hasCharge then { sp with reward := 0 } else sp
-  let tr1 : List Ledger.Transfer := if hasCharge then [{ src := k.sc, dst := client, amount := charge }] else []
-  match kvGet sp1.pools client with
-  | none => if charge = 0 then none else some (sp1, tr1, charge)
+  let c := payCharge sp k client
+  match kvGet sp.pools client with
+  | none => if chargeOf sp client = 0 then none else some (c.1, c.2, chargeOf sp client)
   | some d =>
-    if 0 < d.reward then
-      some ({ sp1 with pools := kvSet sp1.pools client { d with reward := 0 } },
-            tr1 ++ [{ src := k.sc, dst := client, amount := d.reward }], wrapAdd d.reward charge)
-    else some (sp1, tr1, charge)
+    let e := payDelegate c.1 k client d
+    some (e.1, c.2 ++ e.2, wrapAdd d.reward (chargeOf sp client))
 
 /-- `StakePoolUnlock`; `wall` is the `time.Now()` the code reads (seconds). -/
 def unlock (cfg : Cfg) (s : State) (k : Kind) (pid : Id) (t : Txn) (wall : Nat) :
